@@ -218,6 +218,20 @@ fn process_case(case: &Value) -> Value {
     if w("tokens") {
         out.insert("tokens".into(), json!(token_string));
     }
+    if w("internal") {
+        // the type the emitted block structs declare for `base_address` (lir::Device::internal_address_type), read off
+        // the token text without parsing it; all block structs of one device must agree
+        let mut found: Vec<&str> = Vec::new();
+        for (at, pat) in token_string.match_indices("base_address : ") {
+            if let Some(ty) = token_string[at + pat.len()..].split(|c: char| !c.is_ascii_alphanumeric()).next() {
+                let is_int_type = (ty.starts_with('u') || ty.starts_with('i')) && ty[1..].parse::<u32>().is_ok();
+                if is_int_type && !found.contains(&ty) {
+                    found.push(ty);
+                }
+            }
+        }
+        out.insert("internal".into(), json!(found));
+    }
     drop(token_string);
 
     if w("noparse") && !w("facts") && !w("pretty") {
